@@ -25,7 +25,7 @@ ASSUMPTIONS = [
     'column sums rtol 1e-12; profile-range clauses rtol 1e-9 (log-space moving average)',
 ]
 REQUIRED = {'single-fill-with-ratio': 0.05, 'exact-unity': 0.2, 'deactivated-molecule': 0.1, 'class:valid': 0.3, 'class:invalid': 0.1, 'class:boundary': 0.03, 'type:twolayer': 0.1,
-            'type:power': 0.1, 'mode:ktables': 0.07, 'fill>=3': 0.1, 'tiny-fill-ratio': 0.05}
+            'type:power': 0.1, 'mode:ktables': 0.07, 'fill>=3': 0.1, 'tiny-fill-ratio': 0.05, 'pressure-grid:integer-array': 0.05}
 # coverage-guided extra (thorough tier): pure-Python taurex modules on this property's path, instrumented by atheris
 FUZZ = {'include': ['taurex.data.profiles.chemistry', 'taurex.util.util'], 'runs': 20000, 'workers': 4}
 
@@ -76,6 +76,7 @@ def _case(draw):
     return {'class': cls, 'nlayers': nl, 'fill': list(fill), 'ratios': ratios, 'traces': traces,
             'target': draw(st.floats(0.0, 1.0)), 'ktables': ktab, 'have': have,
             'lpmax': draw(st.floats(3.0, 8.0)), 'decades': draw(st.floats(1.0, 12.0)),
+            'P_form': draw(st.sampled_from(['float', 'int', 'float', 'int'])),
             'T': draw(st.lists(st.floats(100.0, 3000.0), min_size=2, max_size=4)),
             'exact_unity': draw(st.sampled_from([0, 1, 0, 2, 3, 0, 4])),
             'single_ratio': draw(st.sampled_from(['default', None, 0.4, 'default'])),
@@ -155,6 +156,13 @@ def check(case):
     nl = case['nlayers']
     levels = np.logspace(case['lpmax'], case['lpmax'] - case['decades'], nl + 1)
     P = np.sqrt(levels[:-1] * levels[1:])
+    # the pressure grid as whole-number pascals in an integer array (an array profile typed in as 10**6, ..., 1): the
+    # same numbers as far as the profiles are concerned
+    if case.get('P_form') == 'int':
+        Pi = np.round(P)
+        if Pi.min() >= 1 and np.all(np.diff(Pi) < 0):
+            out.cls('pressure-grid:integer-array')
+            P = Pi.astype(np.int64)
     T = np.interp(np.linspace(0, 1, nl), np.linspace(0, 1, len(case['T'])), np.array(case['T']))
     out.cls('class:' + case['class'])
     out.cls('mode:' + ('ktables' if case['ktables'] else 'xsec'))
